@@ -73,7 +73,7 @@ def build_harness():
 _TLC_STATS = re.compile(r"(\d+) states generated, (\d+) distinct states found")
 
 
-def run_tlc(module, cfg, wd, env=None, workers=8, timeout=1200, heap="6g", consts=None, dfs=False, coverage=False, simulate=None):
+def run_tlc(module, cfg, wd, env=None, workers=8, timeout=1200, heap="6g", consts=None, dfs=False, coverage=False, simulate=None, expect_violation=None):
     """runs TLC on spec/<module>.tla with spec/<cfg> inside work dir wd; returns dict(out=path, states, distinct,
     lines=[...PrintT tuples as strings])"""
     for f in os.listdir(SPEC):
@@ -113,6 +113,11 @@ def run_tlc(module, cfg, wd, env=None, workers=8, timeout=1200, heap="6g", const
            "distinct": int(m.group(2)) if m else 0, "text": text}
     if p.returncode == 124:
         raise ToolError("TLC timed out on %s after %ds" % (module, timeout))
+    if expect_violation:
+        # a configuration that describes a known-wrong mechanism: TLC must refute it
+        shutil.rmtree(os.path.join(wd, "states-" + module), ignore_errors=True)
+        res["refuted"] = ("Invariant %s is violated" % expect_violation) in text or ("property %s was violated" % expect_violation) in text
+        return res
     if simulate:
         if p.returncode != 0 or "Error:" in text:
             tail = "\n".join(l for l in text.splitlines() if not l.startswith("<<"))[-3000:]
